@@ -220,13 +220,22 @@ VIEW_BUF = bytearray(13)
 USB_BUF = bytearray(20)
 
 
-def run_history(events, acc, label, faults: bool, formats=("ebyte",)):
+def name_for(src):
+    from ..hist import claim_name
+    return claim_name(3000 + src, 1851, inst_lo=src % 6)
+
+
+def run_history(events, acc, label, faults: bool, formats=("ebyte",), mapping=False):
     exp = expected_returns(events)
     n_expected = sum(1 for e in exp if e is not None)
     per_pad = {}
     for fmt in formats:
         for pad in (None, 0xFF, 0x00):
-            dec = NMEA2000Decoder()
+            dec = NMEA2000Decoder(build_network_map=True) if mapping else NMEA2000Decoder()
+            if mapping:
+                # every talker of the history has announced itself (the decoder holds back traffic of unknown sources)
+                for src_ in sorted({m_.stream[1] for m_, _ in events if not isinstance(m_, Claim)}):
+                    dec.decode_tcp(wire.ebyte_frame(wire.can_id(6, 60928, src_, 255), name_for(src_).to_bytes(8, "little")))
             got = []
             cache = {}
             for pos, (m, i) in enumerate(events):
@@ -546,7 +555,15 @@ def random_histories(spec, acc):
                 a_ = rng.choice(addrs)
                 merged.insert(rng.randrange(len(merged) + 1), (Claim(a_, claim_name(rng.randrange(1 << 20), rng.choice([1851, 137, 229]))), 0))
             acc.count("histories_with_address_claims_in_between")
-        run_history(merged, acc, f"random #{h}", True, formats=("ebyte", "ebyte_view") if h % 3 == 0 else (("ebyte", "usb_view") if h % 3 == 1 else ("ebyte",)))
+        mapping = h % 4 == 3
+        if mapping:
+            # on a decoder that builds the network map: the NAME of a talker shows up on ANOTHER address as well (the device
+            # answers on two addresses, or a second unit was configured with the same NAME) - the talker goes on talking
+            for _ in range(rng.randint(1, 4)):
+                st_ = rng.choice(use)
+                merged.insert(rng.randrange(len(merged) + 1), (Claim(rng.choice([240, 241, 248]), name_for(st_[1])), 0))
+            acc.count("histories_on_a_mapping_decoder_with_a_name_on_two_addresses")
+        run_history(merged, acc, f"random #{h}", True, formats=("ebyte", "ebyte_view") if h % 3 == 0 else (("ebyte", "usb_view") if h % 3 == 1 else ("ebyte",)), mapping=mapping)
         acc.cover("history_lengths", len(merged) // 50 * 50)
     acc.sample({"kind": "random", "streams": len(streams)})
 
